@@ -471,6 +471,29 @@ func genC11(t *rapid.T) C11Case {
 	for _, s := range c.SSTs {
 		inside = append(inside, s.Symbols...)
 	}
+	if gen.Chance(t, 10) {
+		// a large table: the symbols whose IDs land around 128 and 256 (where the
+		// encodings of IDs change length) are the ones drawn
+		off := 9
+		for _, s := range c.SSTs {
+			if s.MaxID >= 0 {
+				off += s.MaxID
+			} else {
+				off += len(s.Symbols)
+			}
+		}
+		big := SharedJ{Name: "big", Version: 1, MaxID: -1}
+		for i := 0; i < 300; i++ {
+			big.Symbols = append(big.Symbols, fmt.Sprintf("big_%d", i))
+		}
+		c.SSTs = append(c.SSTs, big)
+		inside = nil
+		for _, id := range []int{126, 127, 128, 129, 254, 255, 256, 257, 258} {
+			if k := id - off - 1; k >= 0 && k < 300 {
+				inside = append(inside, big.Symbols[k])
+			}
+		}
+	}
 	inside = append(inside, "name", "version", "imports")
 	texts := append([]string{}, inside...)
 	texts = append(texts, c11Texts...)
